@@ -268,7 +268,7 @@ class Equals(ParametrizedDependentType):
         return "{arg}"
 
     def get_keys(self):
-        return [self.parameter]
+        return list(self.parameters)
 
     def codegen(self):
         if len(self.parameters) == 1:
